@@ -31,17 +31,6 @@ def Scr.drawLog (c : DrawCfg) (s : Scr) : List (Int × Int × Int) :=
   let r2 := if r1.1.clear then r1.1.clearScreen else (r1.1, [])
   Scr.rowsLog c r2.1.h.toNat 0 r2.1
 
-theorem cellTextG_true_width (c : DrawCfg) (w x : Int) (m : Rune) (comb : List Rune) (width : Int) :
-    (Scr.cellTextG c w x m comb width true).2 = 1 := by
-  unfold Scr.cellTextG
-  split
-  · rfl
-  · rename_i h
-    have hw : ¬ width > 1 := fun h' => h ⟨rfl, h'⟩
-    have e : (if width < 1 then 1 else width) = 1 := by split <;> omega
-    simp only [Scr.cellText, e]
-    split <;> rfl
-
 theorem paint_width (c : DrawCfg) (s : Scr) (x y : Int) :
     (s.paint c x y).2.2 = (Scr.cellTextG c s.w x (s.cells.getContent x y).1 (s.cells.getContent x y).2.1
       (s.cells.getContent x y).2.2.2 (c.guardLocked && s.cells.locked (x + 1) y)).2 := rfl
@@ -63,13 +52,6 @@ theorem visit_width_guard {c : DrawCfg} (hct : c.cornerTrick = false) (hg : c.gu
     rw [this, paint_width]
     simp only [hg, hl, Bool.and_self]
     exact cellTextG_true_width ..
-
-theorem dirty_unlocked (b : Buf) (x y : Int) (hd : b.dirty x y = true) : b.locked x y = false := by
-  simp only [dirty] at hd
-  simp only [Buf.locked]
-  split at hd
-  · rename_i hr; rw [if_pos hr]; exact isDirty_true_unlocked _ hd
-  · exact absurd hd (by simp)
 
 theorem ScrRel.locked {s s' : Scr} (r : ScrRel s s') (i j : Int) : s'.cells.locked i j = s.cells.locked i j := by
   simp only [Buf.locked, inRange_iff, r.cw, r.ch, (r.cells i j).2.2.2.1]
